@@ -381,4 +381,16 @@ example : posRows exG = true ∧ closedG exG = true := by decide +kernel
 example : ((pcfgFrom exG [exNodeFa, exNodeFb] 10).map (fun fr => (tagsNorm fr, normalised fr, WF fr))) =
     some (true, true, true) := by decide +kernel
 
+omit [DecidableEq U] in
+/-- the erasure does not change the program of a derivation (its pre-order word of symbols with
+    arities, what the driver's `wordOf` prints): the bijection of `C08_fragment_lang` is a bijection
+    between the programs of the fragment and the programs of the cells of the group -/
+theorem C08_fragment_program (w' : List (Step (U × Nat))) :
+    (w'.map erStep).map (fun st => (st.2.1, st.2.2.length)) = w'.map (fun st => (st.2.1, st.2.2.length)) := by
+  simp [erStep, Function.comp_def]
+
+example : ((pcfgFrom exG [exNodeFa, exNodeFb] 10).map (fun fr =>
+    (derivations fr.g 6).map (fun d => d.2.map (fun st => st.2.1.name)))) =
+    some [["f", "a", "a"], ["f", "a", "b"], ["f", "b", "a"], ["f", "b", "b"]] := by decide +kernel
+
 end PS.Sp
